@@ -134,6 +134,7 @@ def loops_in(gen):
 
 def translate_unit(unit):
     cfg = dict(aliases=unit.get('aliases', {}), stub=unit.get('stub', []), nothrow=unit.get('nothrow', []),
+               stub_prefixes=unit.get('stub_prefixes', []), no_inline=unit.get('no_inline', []),
                outline_fp=unit.get('outline_fp', False))
     tr = cxx2c.translate(unit['targets'], cfg)
     return tr
@@ -188,6 +189,8 @@ def run_unit(unit, work, tier='quick'):
                 return '/* inlined %s */\n' % m.group(1) + open(hp).read()
             return m.group(0)
         ctext = re.sub(r'#include "([\w.]+)"', inline_inc, ctext)
+        import zlib
+        ctext = re.sub(r'WB_STR\("([^"]*)"\)', lambda m_: 'wb_string_lit(0x%xul)' % ((zlib.crc32(m_.group(1).encode()) | 0x100000000) if m_.group(1) else 0), ctext)
         for _ in range(6):
             if not re.search(r'FPXA?\(', re.sub(r'/\*.*?\*/', '', ctext, flags=re.S)):
                 break
